@@ -133,7 +133,7 @@ class Scorer:
         """pred: length-P prediction (NaN at missing entries allowed)"""
         p = self._prep(pred)
         n_p = self._norm(p)
-        if not n_p > 1e-12:
+        if not n_p > 0:         # (exactly zero: predictions may live in any unit)
             return 0.0
         return self._dot(p, self.ybar) / n_p
 
@@ -243,9 +243,16 @@ def problem(draw, n_basis_range=(2, 4), independent=True, max_train=5):
     good = [e for e in live if e not in nan_pairs]
     order = list(draw(st.permutations(good)))
     basis = []
+    # count-valued basis RDMs (Hamming distances, numbers of differing features): whole numbers up
+    # to 120 -- held in a narrow unsigned integer array when nothing is missing
+    counts = draw(st.integers(0, 3)) == 0
     for b in range(k):
-        vec = [x / 8.0 for x in draw(st.lists(el, min_size=P, max_size=P))]
-        vec[order[b % len(order)]] += 6.0
+        if counts:
+            vec = [float(x) for x in draw(st.lists(st.integers(0, 60), min_size=P, max_size=P))]
+            vec[order[b % len(order)]] += 60.0
+        else:
+            vec = [x / 8.0 for x in draw(st.lists(el, min_size=P, max_size=P))]
+            vec[order[b % len(order)]] += 6.0
         basis.append(vec)
     data = []
     for _ in range(t):
@@ -305,11 +312,14 @@ class Built:
         pd_full = {'index': list(ivals), 'lab': list(labs)}
         held = basis.copy()
         self.int_basis = bool(not case['nan_pairs'] and np.all(basis == np.round(basis))
-                              and np.abs(basis).max() < 2.0 ** 40 and (len(basis) + n) % 2 == 0)
+                              and np.abs(basis).max() < 2.0 ** 40
+                              and ((len(basis) + n) % 2 == 0 or np.abs(basis).max() <= 255))
         if self.int_basis:
             # integral basis RDMs (counts, rank codes, category models in large units) held in an
-            # integer array: the model RDMs keep the dtype they are given
-            held = held.astype(np.int64)
+            # integer array: the model RDMs keep the dtype they are given (narrow unsigned for
+            # small counts, by the parity of their sum)
+            narrow = held.min() >= 0 and held.max() <= 255
+            held = held.astype(np.uint8 if narrow else np.int64)
         self.model_rdms = RDMs(held, pattern_descriptors={k: list(v) for k, v in pd_full.items()},
                                dissimilarity_measure='euclidean')
         # training sample: the full data restricted to the sorted selection (own construction)
@@ -343,10 +353,13 @@ def perturbed_basis(case, built):
     uns = set(built.unselected())
     basis = [list(b) for b in case['basis']]
     prs = ref.pairs(case['n'])
+    # (whole-number steps for count-valued basis RDMs, so that the changed basis is held in the same
+    # storage type as the original and the two fits run the same arithmetic)
+    whole = all(float(v) == round(float(v)) for row in basis for v in row)
     for b in range(len(basis)):
         for e, (i, j) in enumerate(prs):
             if i in uns or j in uns:
-                basis[b][e] += case['perturb'][(b + e) % 4] / 4.0
+                basis[b][e] += case['perturb'][(b + e) % 4] / (1.0 if whole else 4.0)
     return basis
 
 
